@@ -47,6 +47,47 @@ def owns(pid, cls):
     return not is23 or cls == "panic:wake-after-cancelled-sleep"
 
 
+def build_exec(c, build):
+    """Build rt-native in the given feature build and return a private copy of the executable.
+    Like rtlib.build_rt, but (a) the copy is installed by an atomic rename (another check may be executing the old
+    copy), (b) the copy's features are probed: several builders share one cargo target directory and build the same
+    package with different features, so the artefact may have been replaced between `cargo build` and the copy."""
+    from vlib import HARNESS, BUILD, REPO
+    import shutil, subprocess
+    features = execlib.BUILDS[build]
+    cmd = ["cargo", "build", "-p", "rt-native"]
+    if features:
+        cmd += ["--features", features]
+    # one target directory per feature build: no rebuild ping-pong between the three builds (and with other checks)
+    env, mut = {}, os.path.realpath(REPO) != "/repo"
+    target = os.path.join(BUILD, "target-rt-" + build + ("-mut" if mut else ""))
+    cmd += ["--target-dir", target]
+    if mut:
+        cmd += ["--config", 'paths=["%s/crates/guest-rust"]' % REPO]
+        env["VERIF_REPO"] = REPO
+        if not any("repo copy" in x for x in c.notes):
+            c.notes.append(f"rt-native built against the repo copy {REPO}")
+    dst = os.path.join(BUILD, "rt-exec-" + build + ("-mut" if mut else ""))
+    last = ""
+    for attempt in range(4):
+        rc, out = sh(cmd, cwd=HARNESS, timeout=3000, env=env)
+        if rc != 0:
+            c.broken.append((f"harness build rt-native ({build})", out[-3000:]))
+            return None
+        tmp = dst + ".tmp%d" % os.getpid()
+        shutil.copy2(os.path.join(target, "debug", "rt-native"), tmp)
+        probe = subprocess.run([tmp, "exec"], input="start |  | s1 ; |\nstart |  | k0 w | X1\n", capture_output=True, text=True).stdout
+        has_spawn = " sp1 " in probe
+        has_itw = "us.new=" in probe
+        if has_spawn == (build == "async-spawn") and has_itw == (build == "inter-task-wakeup"):
+            os.replace(tmp, dst)
+            return dst
+        os.remove(tmp)
+        last = probe[:300]
+    c.broken.append((f"harness build rt-native ({build})", "the built executable does not have the requested features (concurrent builds?): " + last))
+    return None
+
+
 def cut(trace):
     """comparison form: everything up to and including the first `@panic`"""
     i = trace.find("@panic")
@@ -87,7 +128,7 @@ def run_exec(c, pid, builds, n_per_build, maxbody, props_module):
     per_build = {}
     samples = 0
     for b in builds:
-        exe = rtlib.build_rt(c, execlib.BUILDS[b])
+        exe = build_exec(c, b)
         reqs = [s for (bb, s) in corpus if bb == b]
         ncorpus = len(reqs)
         bstats = collections.Counter()
